@@ -141,6 +141,25 @@ def run(out, info, tier, seed):
                 mismatches.append(dict(desc, model=m_res, impl=res))
             elif eff is not None and canon(m_res.split(' ', 1)[1]) != ';'.join(eff):
                 mismatches.append(dict(desc, model=m_res, impl=';'.join(eff)))
+    # several attribute pairs in one connect() call
+    n_multi = 0
+    mrng = random.Random(seed + 5)
+    for _ in range(250 if not exhaustive else 3000):
+        ps, pd = mrng.choice(PLACES), mrng.choice(PLACES)
+        k = mrng.choice([2, 2, 3])
+        allp = [(a, b) for a in SRC for b in DST]
+        pairs = mrng.sample(allp, k)
+        if len({b for _, b in pairs}) < len(pairs) and mrng.random() < 0.5: continue      # (mostly distinct destination attributes)
+        sh, w, ini, c = mrng.choice([0, 0, 1, 2]), mrng.random() < 0.3, mrng.random() < 0.5, mrng.random() < 0.5
+        n_multi += 1
+        try:
+            f = multi_case(ps, pd, pairs, sh, w, ini, c)
+        except Exception as e:
+            f = dict(expected='no crash', observed=f'{type(e).__name__}: {e}'[:200])
+        if f:
+            violations.append(dict(kind='connect_multi', src_group=ps, dst_group=pd, pairs=[list(x) for x in pairs], time_shifted=sh, weak=w,
+                                   initial_data=ini, cache=c, **f))
+    seen += n_multi
     if model is not None:
         out.add_obligation('correspondence: extracted connect_one = World.connect (decision, delay, table effects)',
                            not mismatches, f'{seen} calls compared')
@@ -151,7 +170,8 @@ def run(out, info, tier, seed):
                             '{persistent, event, missing} x dest attr {non-trigger, trigger, missing} x time_shifted {0,1,2} x weak x initial_data x cache '
                             f'= {len(space)} cases; thorough = all, quick = seeded sample of 1500; half/third with a prior accepted connection to make '
                             '"unchanged tables" non-trivial; in three quarters of the calls the source and/or destination entity is a child entity (model M) created '
-                            'hierarchically under a parent of another model whose attribute facts differ; non-trivial = different groups or weak or shifted',
+                            'hierarchically under a parent of another model whose attribute facts differ; non-trivial = different groups or weak or shifted; '
+                            f'plus {n_multi} connect() calls with two or three attribute pairs at once, compared with the accepted pairs connected one by one',
                     'samples': [dict(zip(['src_group', 'dst_group', 'src_attr', 'dst_attr', 'shift', 'weak', 'init', 'cache'], cases[3])),
                                 {'model_request': reqs[3], 'model_reply': model[3] if model else None}],
                     'traces_validated_against_impl': seen if model is not None else 0,
@@ -205,8 +225,73 @@ def one_case_wrapped(ps, pd, sa, da, sh, w, ini, cache, prior, child=(False, Fal
         world.shutdown()
 
 
+def canon_snapshot(snap):
+    """order-insensitive form of a snapshot (several pairs of one connect() call are processed in set order)"""
+    def c(x):
+        if isinstance(x, dict): return {k: c(v) for k, v in x.items()}
+        if isinstance(x, list): return sorted((c(v) for v in x), key=lambda v: json.dumps(v, sort_keys=True, default=str))
+        return x
+    return json.dumps(c(json.loads(snap)), sort_keys=True, default=str)
+
+
+def multi_case(ps, pd, pairs, sh, w, ini, cache):
+    """several attribute pairs in ONE connect() call: rejected iff some pair is rejected, and the data-flow left behind
+    is exactly that of the accepted pairs connected one by one (a rejected pair leaves nothing behind, an accepted one is
+    not lost because another pair of the call was rejected)"""
+    import mosaik.scenario as sc
+    def build():
+        orig = sc.World.start; ents = {}
+        def start(self, *a, **k):
+            mf = orig(self, *a, **k); real_M = mf.M
+            class Wrap:
+                def M(_s, **kw):
+                    e = real_M(**kw); ents[k['sim_id']] = e; return e
+            return Wrap()
+        sc.World.start = start
+        try:
+            case = {'n': 2, 'types': ['hybrid', 'hybrid'], 'grp': [ps, pd], 'edges': [], 'until': 2, 'beh': [{'type': 'hybrid'}, {'type': 'hybrid'}]}
+            world = simlib.build_world(case, cache=cache)
+        finally:
+            sc.World.start = orig
+        return world, ents['S0'], ents['S1']
+    def kwargs(prs):
+        kw = {}
+        if sh: kw['time_shifted'] = sh
+        if w: kw['weak'] = True
+        if ini: kw['initial_data'] = {sa: 'INIT' for sa, _ in prs}
+        return kw
+    world, src, dst = build()
+    try:
+        try:
+            world.connect(src, dst, *pairs, **kwargs(pairs)); res = 'accepted'
+        except ScenarioError:
+            res = 'rejected'
+        except Exception as e:
+            res = 'crashed:' + type(e).__name__
+        snap_multi = canon_snapshot(snapshot(world))
+    finally:
+        world.shutdown()
+    good = [p_ for p_ in pairs if not spec_reject(ps, pd, p_[0], p_[1], sh, w, ini)]
+    world, src, dst = build()
+    try:
+        for p_ in good:
+            world.connect(src, dst, p_, **kwargs([p_]))
+        snap_seq = canon_snapshot(snapshot(world))
+    finally:
+        world.shutdown()
+    want = 'accepted' if len(good) == len(pairs) else 'rejected'
+    if res != want: return dict(expected=want, observed=res)
+    if snap_multi != snap_seq: return dict(expected='the data-flow of the accepted pairs connected one by one', observed='different tables after the joint call')
+    return None
+
+
 def replay(path, out):
     r = json.load(open(path))
+    if r.get('kind') == 'connect_multi':
+        f = multi_case(r['src_group'], r['dst_group'], [tuple(x) for x in r['pairs']], r['time_shifted'], r['weak'], r['initial_data'], r['cache'])
+        print(f if f else 'joint call behaves like the separate calls')
+        if f: print(f'VIOLATION property=C11 replay={path}')
+        return 1 if f else 0
     if r.get('kind') != 'connect':
         print(json.dumps(r, indent=1)); print('obligation replay: re-run ./check C11'); return 1
     res, unchanged, eff = one_case_wrapped(r['src_group'], r['dst_group'], r['src_attr'], r['dst_attr'], r['time_shifted'],
